@@ -100,7 +100,11 @@ func (g *Gen) genStatHistory(prop string) {
 			// compensation of the Kahan sum is not zero when the later operations scale / merge it
 			line := "stat " + sh(q)
 			for k, m := 0, r.Range(2, 6); k < m; k++ {
-				switch r.Pick(45, 20, 20, 15) {
+				switch r.Pick(45, 20, 20, 15, 6, 6) {
+				case 4:
+					line += " addcount " + hexF(float64(r.Range(0, 64))/4)
+				case 5:
+					line += " addsum " + hexF(val()*(1+r.Float01()))
 				case 0:
 					line += " add " + hexF(val()*(1+r.Float01())) + " " + hexF(float64(r.Range(1, 4096))/1000)
 				case 1:
